@@ -5,43 +5,14 @@ Import ListNotations.
 Open Scope string_scope.
 Open Scope list_scope.
 
-Lemma forallb_In {A} (f : A -> bool) l x : forallb f l = true -> In x l -> f x = true.
-Proof. intros H Hx. exact (proj1 (forallb_forall f l) H x Hx). Qed.
-
-Ltac fa H x Hx := let H' := fresh in pose proof (forallb_In _ _ x H Hx) as H'; cbv beta in H'; clear H; rename H' into H.
-
 Lemma literal_all_ok : literal_all = true.
 Proof. vm_compute. reflexivity. Qed.
 
-Lemma literal_forall p k al : In (p, k, al) (sleaves defaults_schema) -> literal_holds p k = true.
-Proof. intros H1. pose proof literal_all_ok as H. unfold literal_all in H. fa H (p, k, al) H1. exact H. Qed.
-
 Lemma reset_all_ok : reset_all = true.
-Proof. vm_compute. reflexivity. Qed.
-
-Lemma reset_forall p k al v n :
-  In (p, k, al) (sleaves defaults_schema) -> in_literal p = true -> shadowed defaults_schema p = false ->
-  In v (two k) -> In n (notations_coarse p) -> reset_holds p v n = true.
-Proof.
-  intros H1 Hl Hs H2 H3. pose proof reset_all_ok as H. unfold reset_all in H.
-  fa H (p, k, al) H1. apply orb_prop in H. destruct H as [Hc|H]; [apply orb_prop in Hc; destruct Hc as [Hc|Hc]|].
-  - assert (X : negb (in_literal p) = true) by exact Hc. rewrite Hl in X. discriminate X.
-  - assert (X : shadowed defaults_schema p = true) by exact Hc. rewrite Hs in X. discriminate X.
-  - fa H v H2. fa H n H3. exact H.
-Qed.
+Proof. vm_cast_no_check (eq_refl true). Qed.
 
 Lemma reset_none_outside_ok : reset_none_outside = true.
-Proof. vm_compute. reflexivity. Qed.
-
-Lemma reset_outside_forall p k al v :
-  In (p, k, al) (sleaves defaults_schema) -> in_literal p = false -> In v (two k) -> reset_holds p v NAttr = false.
-Proof.
-  intros H1 Hl H2. pose proof reset_none_outside_ok as H. unfold reset_none_outside in H.
-  fa H (p, k, al) H1. apply orb_prop in H. destruct H as [Hc|H].
-  - assert (X : in_literal p = true) by exact Hc. rewrite Hl in X. discriminate X.
-  - fa H v H2. assert (X : negb (reset_holds p v NAttr) = true) by exact H.
-    destruct (reset_holds p v NAttr); [discriminate X|reflexivity].
-Qed.
+Proof. vm_cast_no_check (eq_refl true). Qed.
 
 Definition p_label : path := ["display"; "style"; "base"; "label"].
 Definition p_msize : path := ["display"; "style"; "magnet"; "magnetization"; "arrow"; "size"].
